@@ -36,8 +36,11 @@ def gen_intro(seed, tier):
     nsub = ch.randint("config", "nsub", 1, 3)
     ops = []
     for i in range(ch.randint(W, "nops", 3, 30)):
-        k = ch.weighted(W, ("k", i), [("publish", 5), ("batch", 8), ("service-relay", 3), ("reconnect", 1.2)])
-        if k == "publish":
+        k = ch.weighted(W, ("k", i), [("publish", 5), ("batch", 8), ("service-relay", 3), ("reconnect", 1.2), ("cache-fault", 1.0)])
+        if k == "cache-fault":
+            # the subscriber's announcement cache file cannot be written for the next n attempts (disk full, permissions)
+            ops.append(["cache-fault", ch.randrange(W, ("s", i), nsub), ch.randint(W, ("ncf", i), 1, 3)])
+        elif k == "publish":
             ops.append(["publish", ch.randrange(W, ("p", i), npub), ch.randint(W, ("v", i), 1, 1 << 20)])
         elif k == "batch":
             els = []
@@ -95,7 +98,16 @@ def exec_intro(case):
         c = IntroducerClient(None, "pb://fake@intro/xyz", "sub%d" % i, "1.0", "1.0", lambda: (1, "n"), FilePath(os.path.join(base, "subcache%d.yaml" % i)))
         delivered = []
         c.subscribe_to("storage", lambda key_s, ann, delivered=delivered: delivered.append((key_s, json.loads(json.dumps(ann)))))
-        subs.append({"client": c, "delivered": delivered, "name": "s%d" % i, "connected": False})
+        sub_ = {"client": c, "delivered": delivered, "name": "s%d" % i, "connected": False, "cache_faults": 0}
+        subs.append(sub_)
+
+        def failing_set_content(content, *a, sub_=sub_, fp_=c._cache_filepath, **kw):
+            if sub_["cache_faults"] > 0:
+                sub_["cache_faults"] -= 1
+                probe("cache-write-failed")
+                raise OSError(28, "No space left on device (injected)")
+            return type(fp_).setContent(fp_, content, *a, **kw)
+        c._cache_filepath.setContent = failing_set_content
 
     def connect(node):
         ref = net.ref(node["name"], "intro", service)
@@ -172,6 +184,8 @@ def exec_intro(case):
         k = op[0]
         if k == "publish":
             do_publish(op[1], op[2])
+        elif k == "cache-fault":
+            subs[op[1] % len(subs)]["cache_faults"] = op[2]
         elif k == "service-relay":
             # the publisher (re)connects to the real service and publishes; subscribers that are connected get it relayed
             pub = pubs[op[1]]
